@@ -181,6 +181,9 @@ fn finish_cli(
     idx: usize,
     reader_sel: u64,
 ) -> Result<(), String> {
+    if o.idle_hang() {
+        return Err(format!("{}: clone of a valid archive did not end: stopped by the watchdog after {:.0?} having used {} ms of CPU (idle, not slow)", who, o.wall, o.cpu_ms));
+    }
     if o.exit == Exit::Timeout || o.exit.hit_cpu_limit() {
         rep.inconclusive("watchdog / CPU budget of the case exhausted (clone)");
         return Ok(());
